@@ -662,10 +662,34 @@ func ruleDeletedNodesUnlinked(w *World, r *Report, rule string) {
 				if fieldOf(finfo, il.Coll) != g.edges {
 					continue
 				}
+				// a positional slices.Delete(list, i, i+1) outside any inner loop drops ONE occurrence of
+				// the key: a node that lists the deleted node twice keeps a dangling edge
+				single := false
+				var inner []ast.Node
+				ast.Inspect(il.Body, func(x ast.Node) bool {
+					if x == nil {
+						inner = inner[:len(inner)-1]
+						return true
+					}
+					inner = append(inner, x)
+					if c, ok := x.(*ast.CallExpr); ok && isFunc(callee(finfo, c), "slices", "", "Delete") {
+						looped := false
+						for _, p := range inner[:len(inner)-1] {
+							switch p.(type) {
+							case *ast.ForStmt, *ast.RangeStmt:
+								looped = true
+							}
+						}
+						if !looped {
+							single = true
+						}
+					}
+					return true
+				})
 				ast.Inspect(il.Body, func(x ast.Node) bool {
 					if as, ok := x.(*ast.AssignStmt); ok {
 						for _, l := range as.Lhs {
-							if ix, ok := unparen(l).(*ast.IndexExpr); ok && fieldOf(finfo, ix.X) == g.edges {
+							if ix, ok := unparen(l).(*ast.IndexExpr); ok && fieldOf(finfo, ix.X) == g.edges && !single {
 								sweep[il.Stmt] = true
 							}
 						}
@@ -958,7 +982,16 @@ func ruleAliasIsBase(w *World, r *Report, rule string) {
 
 // reexport runs a rule set of another property on a scratch report and files the
 // obligations of the selected rule ids under a rule of this property.
+var reexportDepth int
+
 func reexport(w *World, r *Report, rule string, run func(sub *Report), ids ...string) {
+	// a rule set that is itself being re-exported does not re-export in turn
+	// (C17 files C20's traversal rules, C20 files C17's view rules)
+	if reexportDepth > 0 {
+		return
+	}
+	reexportDepth++
+	defer func() { reexportDepth-- }()
 	sub := NewReport(r.Prop, r.Tier, w)
 	sub.lenient = true
 	run(sub)
